@@ -155,8 +155,8 @@ func init() {
 		s := cond(m, p)
 		L := *structFieldAddr(p, recvElemType(fr), "L")
 		li := L.(Iface)
-		unlockM := m.Prog.LookupMethod(li.T, nil, "Unlock")
-		lockM := m.Prog.LookupMethod(li.T, nil, "Lock")
+		unlockM := m.findMethod(li.T, nil, "Unlock")
+		lockM := m.findMethod(li.T, nil, "Lock")
 		w := &condWaiter{}
 		s.waiters = append(s.waiters, w)
 		m.call(fr, fr.curPos, unlockM, []Value{li.V})
